@@ -19,7 +19,15 @@ Definition set_keys (p : prim) (s : st) : list string :=
   | PPqPut _ _ | PPqDel _ => [k_pq]
   | PNodePut n _ => k_nodes :: k_node n :: (k_svc <$> node_names n s)
   | PNodeDel n => [k_nodes; k_next]
-  | PSvcPut n _ x => [k_services; k_svc (sv_name x); k_nodes; k_node n]
+  | PSvcPut n sid x =>
+    [k_services; k_svc (sv_name x); k_nodes; k_node n] ++
+    match services s !! (n, sid) with
+    | Some o =>
+      if bool_decide (sv_name o = sv_name x) then []
+      else if bool_decide (svcs_named (sv_name o) (s <| dt; services ::= <[(n, sid) := x]> |>) = ∅)
+           then [k_sext] else [k_svc (sv_name o)]
+    | None => []
+    end
   | PSvcDel n sid =>
     match services s !! (n, sid) with
     | None => []
@@ -28,14 +36,24 @@ Definition set_keys (p : prim) (s : st) : list string :=
       (if bool_decide (svcs_named (sv_name x) (s <| dt; services ::= delete (n, sid) |>) = ∅)
        then [k_sext] else [k_svc (sv_name x)])
     end
-  | PChkPut n _ x =>
-    k_checks :: (if bool_decide (c_svc x = "") then k_svc <$> node_names n s else [k_svc (c_svcname x)])
+  | PChkPut n cid x =>
+    k_checks :: (if bool_decide (c_svc x = "") then k_svc <$> node_names n s else [k_svc (c_svcname x)]) ++
+    match checks s !! (n, cid) with
+    | Some o =>
+      if bool_decide (c_svc o = c_svc x) then []
+      else if bool_decide (c_svc o = "") then k_svc <$> node_names n s else [k_svc (c_svcname o)]
+    | None => []
+    end
   | PChkDel n cid =>
     match checks s !! (n, cid) with
     | None => []
     | Some x =>
       k_checks :: (if bool_decide (c_svc x = "") then k_services :: (k_svc <$> node_names n s)
-                   else [k_svc (c_svcname x)])
+                   else k_svc (c_svcname x) ::
+                        match services s !! (n, c_svc x) with
+                        | Some sv => if bool_decide (sv_name sv = c_svcname x) then [] else [k_svc (sv_name sv)]
+                        | None => []
+                        end)
     end
   | PBumpSvc name => [k_svc name]
   | PBumpNodeSvcs n => k_svc <$> node_names n s
@@ -47,6 +65,14 @@ Definition set_keys (p : prim) (s : st) : list string :=
 Definition del_keys (p : prim) (s : st) : list string :=
   match p with
   | PNodeDel n => [k_node n]
+  | PSvcPut n sid x =>
+    match services s !! (n, sid) with
+    | Some o =>
+      if bool_decide (sv_name o = sv_name x) then []
+      else if bool_decide (svcs_named (sv_name o) (s <| dt; services ::= <[(n, sid) := x]> |>) = ∅)
+           then [k_svc (sv_name o)] else []
+    | None => []
+    end
   | PSvcDel n sid =>
     match services s !! (n, sid) with
     | None => []
@@ -122,18 +148,74 @@ Proof. unfold svcs_named. intros ->. reflexivity. Qed.
 Lemma svcs_of_node_dt n (s s' : st) : services s = services s' -> svcs_of_node n s = svcs_of_node n s'.
 Proof. unfold svcs_of_node. intros ->. reflexivity. Qed.
 
+Lemma bd_app (k : string) a b : bool_decide (k ∈ a ++ b) = bool_decide (k ∈ a) || bool_decide (k ∈ b).
+Proof.
+  destruct (decide (k ∈ a)) as [Ha|Ha]; destruct (decide (k ∈ b)) as [Hb|Hb];
+    rewrite ?(bool_decide_eq_true_2 _ Ha), ?(bool_decide_eq_false_2 _ Ha),
+            ?(bool_decide_eq_true_2 _ Hb), ?(bool_decide_eq_false_2 _ Hb); cbn;
+    [apply bool_decide_eq_true_2|apply bool_decide_eq_true_2|apply bool_decide_eq_true_2|apply bool_decide_eq_false_2];
+    rewrite elem_of_app; tauto.
+Qed.
+Lemma bd_cons (k a : string) l : bool_decide (k ∈ a :: l) = bool_decide (k = a) || bool_decide (k ∈ l).
+Proof.
+  destruct (decide (k = a)) as [Ha|Ha]; destruct (decide (k ∈ l)) as [Hb|Hb];
+    rewrite ?(bool_decide_eq_true_2 _ Ha), ?(bool_decide_eq_false_2 _ Ha),
+            ?(bool_decide_eq_true_2 _ Hb), ?(bool_decide_eq_false_2 _ Hb); cbn;
+    [apply bool_decide_eq_true_2|apply bool_decide_eq_true_2|apply bool_decide_eq_true_2|apply bool_decide_eq_false_2];
+    rewrite elem_of_cons; tauto.
+Qed.
+Lemma bd_nil (k : string) : bool_decide (k ∈ @nil string) = false.
+Proof. apply bool_decide_eq_false_2. intros H; inversion H. Qed.
+Lemma names_of_node_dt n (s s' : st) : services s = services s' -> names_of (svcs_of_node n s) = names_of (svcs_of_node n s').
+Proof. intros H. rewrite (svcs_of_node_dt n s s' H). reflexivity. Qed.
+
+(* the index after a chain of bumps, as a boolean test on the key *)
+Ltac bdnorm := rewrite ?bd_app, ?bd_cons, ?bd_nil, ?orb_false_r.
+
 Lemma index_papply i p s k :
   IdxBnd i s -> index (papply i p s) !! k = papply_idx i p s k.
 Proof.
   intros HB. unfold papply_idx.
   destruct p; cbn [papply set_keys del_keys].
-  all: try (repeat (rewrite ibump_iset by bnd); cbn [index iset idel set];
-            repeat case_bool_decide; set_unfold; lk k; (reflexivity || naive_solver)).
+  all: try (timeout 20 (repeat (rewrite ibump_iset by bnd); cbn [index iset idel set];
+            repeat case_bool_decide; set_unfold; lk k; (reflexivity || naive_solver))).
   - (* PNodePut *)
     rewrite lookup_bump_names by bnd. rewrite !lookup_ibump by bnd. cbn [index set dt].
     unfold node_names. rewrite (svcs_of_node_dt n (s <| dt; nodes ::= <[n:=x]> |>) s) by reflexivity.
     rewrite (bool_decide_eq_false_2 (k ∈ [])) by (intros Hin; inversion Hin).
     repeat case_bool_decide; set_unfold; try reflexivity; naive_solver.
+  - (* PSvcPut *)
+    set (s' := s <| dt; services ::= <[(n, sid) := x]> |>).
+    set (s1 := ibump (k_node n) i (ibump k_nodes i (ibump (k_svc (sv_name x)) i (ibump k_services i s')))).
+    assert (HB' : IdxBnd i s') by exact HB.
+    assert (HB1 : IdxBnd i s1) by (unfold s1; bnd).
+    assert (H1 : index s1 !! k = if bool_decide (k ∈ [k_services; k_svc (sv_name x); k_nodes; k_node n]) then Some i else index s !! k).
+    { unfold s1. rewrite !lookup_ibump by bnd. bdnorm.
+      repeat (case_bool_decide; cbn [orb]); try reflexivity. }
+    destruct (services s !! (n, sid)) as [o|] eqn:Eo.
+    2: { rewrite app_nil_r, bd_nil. exact H1. }
+    destruct (decide (sv_name o = sv_name x)) as [En|En].
+    { rewrite !(bool_decide_eq_true_2 _ En), app_nil_r, bd_nil. exact H1. }
+    rewrite !(bool_decide_eq_false_2 _ En).
+    rewrite (svcs_named_dt (sv_name o) s1 s') by (unfold s1; rewrite !dt_ibump; reflexivity).
+    destruct (bool_decide (svcs_named (sv_name o) s' = ∅)) eqn:Erem.
+    + rewrite lookup_ibump by bnd. rewrite index_idel. rewrite bd_app.
+      destruct (decide (k = k_svc (sv_name o))) as [->|Hk].
+      * rewrite lookup_delete.
+        pose proof (k_svc_fixed (sv_name o)) as Hf.
+        rewrite (bool_decide_eq_false_2 (k_svc (sv_name o) = k_sext)) by (apply Hf; set_solver).
+        rewrite (bool_decide_eq_false_2 (_ ∈ [k_services; _; _; _])).
+        2: { rewrite !elem_of_cons, elem_of_nil. intros [H|[H|[H|[H|[]]]]]; try (revert H; apply Hf; set_solver).
+             - apply k_svc_inj in H. contradiction.
+             - revert H. apply k_svc_node. }
+        rewrite (bool_decide_eq_false_2 (_ ∈ [k_sext])) by (rewrite elem_of_list_singleton; apply Hf; set_solver).
+        rewrite (bool_decide_eq_true_2 (_ ∈ [k_svc (sv_name o)])) by set_solver. reflexivity.
+      * rewrite lookup_delete_ne by congruence. rewrite H1.
+        rewrite (bool_decide_eq_false_2 (k ∈ [k_svc (sv_name o)])) by set_solver.
+        rewrite (bd_cons k k_sext), bd_nil, orb_false_r.
+        repeat (case_bool_decide; cbn [orb]); try reflexivity; contradiction.
+    + rewrite lookup_ibump by bnd. rewrite H1, bd_app, bd_nil. rewrite (bd_cons k (k_svc (sv_name o))), bd_nil, orb_false_r.
+      repeat (case_bool_decide; cbn [orb]); try reflexivity; contradiction.
   - (* PSvcDel *)
     destruct (services s !! (n, sid)) as [x|] eqn:Ex.
     2: { rewrite !(bool_decide_eq_false_2 (k ∈ [])) by (intros Hin; inversion Hin). reflexivity. }
@@ -158,25 +240,54 @@ Proof.
       rewrite (bool_decide_eq_false_2 (k ∈ [])) by (intros Hin; inversion Hin).
       repeat case_bool_decide; set_unfold; try reflexivity; naive_solver.
   - (* PChkPut *)
-    rewrite (bool_decide_eq_false_2 (k ∈ [])) by (intros Hin; inversion Hin).
+    rewrite bd_nil. rewrite bd_cons, bd_app.
+    set (s0 := match checks s !! (n, cid) with
+               | Some o => if bool_decide (c_svc o = c_svc x) then s
+                           else if bool_decide (c_svc o = "") then bump_names (names_of (svcs_of_node n s)) i s
+                                else ibump (k_svc (c_svcname o)) i s
+               | None => s end).
+    assert (Hd0 : dt s0 = dt s).
+    { unfold s0. destruct (checks s !! (n, cid)) as [o|]; [|reflexivity].
+      repeat (destruct (bool_decide _)); rewrite ?dt_bump_names, ?dt_ibump; reflexivity. }
+    assert (HB0 : IdxBnd i s0).
+    { unfold s0. destruct (checks s !! (n, cid)) as [o|]; [|exact HB]. repeat (destruct (bool_decide _)); bnd. }
+    assert (H0 : index s0 !! k =
+                 if bool_decide (k ∈ match checks s !! (n, cid) with
+                                     | Some o => if bool_decide (c_svc o = c_svc x) then []
+                                                 else if bool_decide (c_svc o = "") then k_svc <$> node_names n s else [k_svc (c_svcname o)]
+                                     | None => [] end)
+                 then Some i else index s !! k).
+    { unfold s0. destruct (checks s !! (n, cid)) as [o|]; [|rewrite bd_nil; reflexivity].
+      destruct (bool_decide (c_svc o = c_svc x)); [rewrite bd_nil; reflexivity|].
+      destruct (bool_decide (c_svc o = "")).
+      - rewrite lookup_bump_names by exact HB. reflexivity.
+      - rewrite lookup_ibump by exact HB. rewrite bd_cons, bd_nil, orb_false_r. reflexivity. }
+    assert (Hn0 : names_of (svcs_of_node n s0) = names_of (svcs_of_node n s)) by (apply names_of_node_dt; rewrite Hd0; reflexivity).
+    rewrite Hn0.
     destruct (bool_decide (c_svc x = "")).
     + rewrite lookup_ibump by (apply IdxBnd_dt; bnd). cbn [index set dt].
-      rewrite lookup_bump_names by bnd. unfold node_names.
-      repeat case_bool_decide; set_unfold; try reflexivity; naive_solver.
+      rewrite lookup_bump_names by exact HB0. rewrite H0. unfold node_names.
+      repeat (case_bool_decide; cbn [orb]); try reflexivity.
     + rewrite lookup_ibump by (apply IdxBnd_dt; bnd). cbn [index set dt].
-      rewrite lookup_ibump by bnd.
-      repeat case_bool_decide; set_unfold; try reflexivity; naive_solver.
+      rewrite lookup_ibump by exact HB0. rewrite H0. rewrite bd_cons, bd_nil, orb_false_r.
+      repeat (case_bool_decide; cbn [orb]); try reflexivity.
   - (* PChkDel *)
-    rewrite (bool_decide_eq_false_2 (k ∈ [])) by (intros Hin; inversion Hin).
+    rewrite bd_nil.
     destruct (checks s !! (n, cid)) as [x|] eqn:Ex.
-    2: { rewrite (bool_decide_eq_false_2 (k ∈ [])) by (intros Hin; inversion Hin). reflexivity. }
+    2: { rewrite bd_nil. reflexivity. }
+    rewrite bd_cons.
     destruct (bool_decide (c_svc x = "")).
     + rewrite lookup_ibump by (apply IdxBnd_dt; bnd). cbn [index set dt].
-      rewrite lookup_ibump by bnd. rewrite lookup_bump_names by bnd. unfold node_names.
-      repeat case_bool_decide; set_unfold; try reflexivity; naive_solver.
-    + rewrite lookup_ibump by (apply IdxBnd_dt; bnd). cbn [index set dt].
-      rewrite lookup_ibump by bnd.
-      repeat case_bool_decide; set_unfold; try reflexivity; naive_solver.
+      rewrite lookup_ibump by bnd. rewrite lookup_bump_names by bnd. unfold node_names. rewrite bd_cons.
+      repeat (case_bool_decide; cbn [orb]); try reflexivity.
+    + rewrite bd_cons.
+      destruct (services s !! (n, c_svc x)) as [sv|]; [destruct (bool_decide (sv_name sv = c_svcname x))|].
+      * rewrite lookup_ibump by (apply IdxBnd_dt; bnd). cbn [index set dt]. rewrite lookup_ibump by bnd. rewrite bd_nil, orb_false_r.
+        repeat (case_bool_decide; cbn [orb]); try reflexivity.
+      * rewrite lookup_ibump by (apply IdxBnd_dt; bnd). cbn [index set dt]. rewrite !lookup_ibump by bnd. rewrite bd_cons, bd_nil, orb_false_r.
+        repeat (case_bool_decide; cbn [orb]); try reflexivity.
+      * rewrite lookup_ibump by (apply IdxBnd_dt; bnd). cbn [index set dt]. rewrite lookup_ibump by bnd. rewrite bd_nil, orb_false_r.
+        repeat (case_bool_decide; cbn [orb]); try reflexivity.
   - (* PBumpNodeSvcs *)
     rewrite (bool_decide_eq_false_2 (k ∈ [])) by (intros Hin; inversion Hin).
     rewrite lookup_bump_names by bnd. reflexivity.
